@@ -33,7 +33,8 @@ static void mk_table(unsigned maxn)
 static char arg[8]; unsigned long g_u; unsigned g_nd;
 unsigned int scan_ulong(char *s, unsigned long *u) { if (s == arg) { *u = g_u; return g_nd; } *u = ND_ULONG(); return ND_UINT() % 8; }   /* contract: decimal value of the digit prefix, its length */
 int g_opened_idx = -1; char *g_opened_fn;
-int open_read(char *fn) { g_opened_fn = fn; g_opened_idx = 1; return -1; }
+int g_fd_open, g_blasted, g_closed_fd; unsigned long g_limit_seen;
+int open_read(char *fn) { g_opened_fn = fn; g_opened_idx = 1; if (ND_BOOL()) return -1; g_fd_open = 1; return 7; }
 void h_msgno(void)
 {
   int r; unsigned K = ND_UINT();
@@ -64,11 +65,13 @@ void h_dele(void)
 void h_top(void)
 {
   mk_table(100000);
-  g_u = ND_ULONG(); g_nd = ND_UINT() % 8; g_opened_idx = -1;
+  g_u = ND_ULONG(); g_nd = ND_UINT() % 8; g_opened_idx = -1; g_fd_open = g_blasted = g_closed_fd = 0;
+  ssmsg.p = ND_INT(); V_ASSUME(ssmsg.p >= 0 && ssmsg.p <= (int)sizeof ssmsgbuf); ssmsg.fd = ND_INT();   /* whatever an earlier RETR/TOP left behind: unread bytes, an old descriptor */
   pop3_top(arg);
+  V_ASSERT(g_fd_open == g_blasted && g_blasted == g_closed_fd, "C19: an opened message is transmitted and closed");
   if (g_opened_idx >= 0) V_ASSERT(g_nd && g_u >= 1 && g_u <= numm && g_opened_fn == m[g_u - 1].fn && !m[g_u - 1].flagdeleted, "C19: RETR/TOP n opens exactly the file of message n, and never a deleted one");
   else V_ASSERT(g_errs == 1, "C19: a refused RETR/TOP sends an error");
-  V_COVER(g_opened_idx >= 0);
+  V_COVER(g_opened_idx >= 0); V_COVER(g_blasted);
 }
 #endif
 
